@@ -47,8 +47,9 @@ var failKinds = []failKind{
 	{name: "timeout-once-then-continue", err: errTimeout, once: true},
 	{name: "error-with-data", err: errPlain, withData: true},
 	{name: "timeout-with-data-then-continue", err: errTimeout, withData: true, once: true},
-	// not in the property's list of examples but inside its text ("an error other than io.EOF"): the reader's own
-	// error value happens to be one of the sentinels the lexer filters out in recordErr (lexer.go:67)
+	// not in the property's list of examples but inside its text ("an error other than io.EOF"): the reader's own error
+	// value is one of the sentinels bufio itself makes. The first was lost until /repo commit efe7a9c82 (recordErr
+	// filtered bufio.ErrBufferFull on every path); both are ordinary kinds that must be reported.
 	{name: "reader-returns-bufio.ErrBufferFull", err: bufio.ErrBufferFull},
 	{name: "reader-returns-io.ErrNoProgress", err: io.ErrNoProgress},
 }
